@@ -214,6 +214,10 @@ def shipped():
         eqs = build()
         sets.append((nm, (lambda dest, nm=nm, mod=mod, build=build, **kw: mod.generate_code(build(), filename=nm + ".c", dest_dir=dest, **kw)),
                      {nm: eqs}, gen10))
+    # the generic generator (cyecca/codegen.py) on the shipped multi-set dictionary: one C file per equation set, every
+    # function of every set (the estimator and the simulator share function names such as get_state / constants)
+    sets.append(("generic", lambda dest, **kw: codegen.generate_code(algorithms.eqs(), dest, **kw),
+                 {k: v for k, v in est.items()}, gen10))
     ref = {"mr_ref_traj": mr_ref_traj.derive_mr_ref_traj()}
     sets.append(("mr_ref_traj", lambda dest, **kw: codegen.generate_code({"mr_ref_traj": mr_ref_traj.derive_mr_ref_traj()}, dest, **kw), ref, gen10))
     return sets
